@@ -8,7 +8,7 @@ from ..sessions import SessionSim
 PROP = 'C11'
 LEVEL = 'exploration'
 ORACLES = ['installed']
-RULE = ('one run = seeded universe (relation digraphs with self-loops, cycles, parallel relations differing in type or dc:type, exact duplicates, non-standard types; extensions adding relations to base entities) + seeded history; after every op up to 4 sessions with scopes base only / base+extension / extension only / default mode (expand off); per session and entity: relations with name, source, target, defining lexicon and metadata (set), get_related/relations with and without a random type subset, relation_map keyed by (name, source, target, lexicon, dc:type), get_related_synsets, hypernyms/hyponyms/holonyms/meronyms, closure == model reachability, relation_paths simple and made of declared edges; termination by statement budget. distinct = event digests; non-trivial = at least one session was checked')
+RULE = ('one run = seeded universe (relation digraphs with self-loops, cycles, parallel relations differing in type or dc:type, exact duplicates, non-standard types; extensions adding relations to base entities) + seeded history; after every op up to 4 sessions with scopes base only / base+extension / extension only / default mode (expand off); per session and entity: relations with name, source, target, defining lexicon and metadata (set), get_related/relations with and without a random type subset, relation_map keyed by (name, source, target, lexicon, dc:type), get_related_synsets, hypernyms/hyponyms/holonyms/meronyms, closure == model reachability, relation_paths simple and made of declared edges; termination by statement budget; 0.4% of the runs use a DEEP universe instead (one chain of 1100/1500 synsets and senses, longer than the recursion limit: closure and relation_paths from start, middle and end). distinct = event digests; non-trivial = at least one session was checked')
 SESSION_ORACLES = tuple('relations'.split(','))
 
 
@@ -43,7 +43,61 @@ def build(seed):
     return u, plan
 
 
+class DeepS(SessionSim):
+    """A relation graph that is deep rather than wide: chains longer than the interpreter's
+    recursion limit.  closure() and relation_paths() from the start, the middle and near the
+    end of the chain yield exactly the rest of the chain."""
+    session_oracles = ()
+
+    def deep_chain(self):
+        import itertools
+        import wn
+        n = self.u['profile']['deep']
+        w = wn.Wordnet('deep:1', expand='')
+        self.W.begin_op(budget=None)
+        try:
+            for kind, get, rel in (('s', w.synset, self.u['profile']['synset_relation']),
+                                   ('k', w.sense, self.u['profile']['sense_relation'])):
+                for start in (0, n // 2, n - 3):
+                    x = get('deep-%s%d' % (kind, start))
+                    rest = ['deep-%s%d' % (kind, j) for j in range(start + 1, n)]
+                    for what, fn in (('closure', lambda: [t.id for t in x.closure(rel)]),
+                                     ('relation_paths', lambda: [[t.id for t in p] for p in
+                                                                 itertools.islice(
+                                                                     x.relation_paths(rel), 3)])):
+                        got, exc = self.call(fn)
+                        SessionSim.evals += 1
+                        if exc is not None:
+                            raise self.v(what, '%s() raised %s on a chain of %d relations'
+                                         % (what, type(exc).__name__, len(rest)),
+                                         {'start': x.id, 'relation': rel, 'exc': repr(exc)[:300]})
+                        want = rest if what == 'closure' else [rest]
+                        if got != want:
+                            raise self.v(what, '%s() on a chain of %d relations is not the '
+                                         'rest of the chain' % (what, len(rest)),
+                                         {'start': x.id, 'relation': rel,
+                                          'observed_lengths': [len(got)] if what == 'closure'
+                                          else [len(p) for p in got]})
+            self.probe('deep-chain')
+        finally:
+            self.W.end_op()
+
+
+def run_deep(seed):
+    u = U.generate_deep(subseed(seed, 'universe-deep'))
+    plan = [{'op': 'add', 'res': 'r0'}]
+    SessionSim.evals = 0
+    r = run_plan(PROP, seed, u, plan, [], ['deep_chain'], sim_cls=DeepS)
+    r['evals'] = SessionSim.evals
+    r['nontrivial'] = r['evals'] > 0
+    r['sample'] = {'deep': u['profile']}
+    r['replay'] = {'deep': True, 'seed': seed}
+    return r
+
+
 def run_one(seed, tier):
+    if subseed(seed, 'deep').random() < 0.004:
+        return run_deep(seed)
     u, plan = build(seed)
     SessionSim.evals = 0
     r = run_plan(PROP, seed, u, plan, ORACLES, sim_cls=S)
@@ -55,6 +109,8 @@ def run_one(seed, tier):
 
 
 def replay(obj):
+    if obj.get('deep'):
+        return run_deep(obj['seed'])
     return run_plan(PROP, obj['seed'], obj['universe'], obj['plan'], ORACLES, sim_cls=S)
 
 
